@@ -11,6 +11,9 @@ NOT_DECIDED = ("equality of the decoded values with the original, byte-for-byte 
                "serde_json) are value-level statements.")
 
 RULES = {
+    "C01.R11": lambda ctx: __import__("rules.bldrules", fromlist=["x"]).map_new(ctx, "C01.R11"),
+    # the data URL is one of the serialised forms: writer and reader must use the same (standard, padded) alphabet
+    "C01.R10": lambda ctx: __import__("rules.detrules", fromlist=["x"]).data_url_pairing(ctx, "C01.R10"),
     "C01.R6w": lambda ctx: encrules.whole_document(ctx, "C01.R6w"),
     "C01.R5s": lambda ctx: __import__("rules.decoderrules", fromlist=["x"]).section_errors(ctx, "C01.R5s"),
     "C01.RL": lambda ctx: __import__("rules.common", fromlist=["x"]).loop_exit_rule(ctx, "C01.RL", {'decoder::decode_regular': 0, 'decoder::decode_index': 0, 'encoder::serialize_mappings': 1}),
